@@ -125,6 +125,18 @@ the machinery, never in the properties:
 * the Exit marker sent after the sender slot has been emptied under the lock, and subscribers released after the list has
   been detached under the lock (`b32`, `b33`, found by review of my own Kani obligations) → "under the lock" became
   "under the lock, or after it has been taken out of the shared cell under the lock";
+* *equivalent mutants* (`e_*`, written by sub-agents asked for small suspicious-looking edits that cannot violate any
+  property; 7 of 24 raised an alarm, all corrected in the contracts):
+  the `break` after the Exit marker dropped from the reducer loop (nothing can follow the marker: the consumer loops now
+  call `recv_exit_last`, whose assumed contract adds exactly that rely, guaranteed by the proved clauses of `close`);
+  `need_dispatch = true` dropped from the Dispatch arm (only mixed chains change: the loop invariant is now pinned for
+  unanimous prefixes only, like the postcondition); `subscriber.on_unsubscribe()` instead of `s.on_unsubscribe()` under
+  `Arc::ptr_eq(s, &subscriber)` (same allocation ⇒ same subscriber id, now part of the `ptr_eq` stand-in);
+  `with_reducer` no longer clearing the opt-out flag (unobservable next to a non-empty reducer list: the builder view
+  now holds the opt-out *in effect*); the default `before_effect` answering DoneAction (meaningless in that hook);
+  the explicit `take()` dropped from `Drop for StateIteratorSubscriber` (my clause on drop glue was pointless and was
+  removed); `last_value.as_ref() == Some(&selected)` (PartialEq on a generic type is uninterpreted for Verus: any
+  comparison of `Output` values other than the rewritten one makes `on_notify` undecided, `//@forbid`);
 * (found by review, not by an edit) the model pinned `action_executed`, `effect_executed`, `state_notified`,
   `subscriber_notified` and "the shutdown marker counts as received" → only the counters of the balance
   equations are modelled, the marker may or may not be booked.
